@@ -49,4 +49,9 @@ theorem C13_self_closing_element_skipped (parent : Tag) (st : St) (ws : Bytes) (
 example : ((readTag 6 descTag { rest := serC [([], .elem eMake), ([], .solo nBag), ([10], .elem eModel)] ("</rdf:Description>").toUTF8.toList, a := false, toks := [] }).2.toks.reverse.map (·.val)) =
     [[67, 97, 110, 111, 110], [69, 79, 83]] := by decide +kernel
 
+/-- non-vacuity for a bare Description: `<rdf:Description>` without attributes is covered by `DescR` (its `la` may be empty) -/
+def d0 : DescR := { D := nDesc, wsV := [], ws2 := [], la := [], cs := [([], .elem eModel)] }
+example : ((readTag 5 {} { rest := d0.ser ("</rdf:RDF>").toUTF8.toList, a := false, toks := [] }).2.toks.map (·.val), d0.ser [] ) =
+    ([[69, 79, 83]], ("<rdf:Description><tiff:Model>EOS</tiff:Model></rdf:Description>").toUTF8.toList) := by decide +kernel
+
 end Imeta.Props.C13
